@@ -21,7 +21,7 @@ Oracle (reference = the sender's own list of messages and their byte slices):
                          (never merged, dropped, duplicated or corrupted)
   after the last read    #delivered == #sent, reassembly buffer empty, connection still open
 """
-import bisect, itertools, os, struct, sys, traceback
+import bisect, itertools, multiprocessing, os, resource, signal, struct, sys, traceback
 from mc.engine import pmap
 from mc.report import Report
 from mc.refs import ofwire as W
@@ -31,6 +31,25 @@ PID = "C02"
 
 
 class HarnessError (Exception): pass
+
+class CaseTimeout (Exception):
+  """Raised by the CPU-time watchdog inside a read call that does not return."""
+
+CASE_CPU_LIMIT = 20.0       # seconds of *CPU* time (ITIMER_VIRTUAL) for one case; a normal case needs < 0.1 s
+WORKER_AS_LIMIT = 3 << 30   # address-space cap of a pool worker: runaway allocation becomes a MemoryError
+
+def _on_vtalrm (signum, frame):
+  raise CaseTimeout("no return after %.0f s of CPU time" % CASE_CPU_LIMIT)
+
+def _guards ():
+  """Keep a receiver that loops or allocates without bound (seen with broken framing, where the bytes that follow
+  are decoded as garbage) from hanging or starving the machine: it becomes an exception escaping read()."""
+  signal.signal(signal.SIGVTALRM, _on_vtalrm)
+  if multiprocessing.current_process().name != "MainProcess":
+    soft, hard = resource.getrlimit(resource.RLIMIT_AS)
+    if soft == resource.RLIM_INFINITY or soft > WORKER_AS_LIMIT:
+      resource.setrlimit(resource.RLIMIT_AS, (WORKER_AS_LIMIT, hard))
+
 
 class HandshakeFailed (Exception):
   """The controller connection did not get through its handshake although hello, features reply and barrier
@@ -271,7 +290,11 @@ def run_case (side, msgs, kind, arg, src="/repo", trace=None, end=None):
     queued += len(seg)
     while True:
       try:
-        got = next(it)
+        signal.setitimer(signal.ITIMER_VIRTUAL, CASE_CPU_LIMIT, 1.0)
+        try:
+          got = next(it)
+        finally:
+          signal.setitimer(signal.ITIMER_VIRTUAL, 0)
       except StopIteration:
         break
       except HarnessError:
@@ -279,8 +302,9 @@ def run_case (side, msgs, kind, arg, src="/repo", trace=None, end=None):
       except Exception as e:
         et, ev, tb = sys.exc_info()
         site = _site(tb, src)
+        del tb
         if site == "outside-pox": raise
-        v = bad("raises", "%s:%s" % (site, type(e).__name__),
+        v = bad("hang" if isinstance(e, CaseTimeout) else "raises", "%s:%s" % (site, type(e).__name__),
                 "%s: %s escaped the read path (%s) with %d of %d bytes received"
                 % (type(e).__name__, e, site, queued - sum(len(c) for c in end.sock.rx), len(stream)))
         return v, profile, nreads, states
@@ -366,6 +390,7 @@ def cases_for (lens, threecuts):
 
 def _worker (item):
   side, seq, threecuts, src = item
+  _guards()
   rep = Report(PID, "model_checking")
   msgs = build(side, seq)
   lens = [len(m) for m in msgs]
@@ -457,6 +482,7 @@ def replay (cfg, data):
   from mc import env
   env.boot()
   side, seq, kind, arg = data["side"], tuple(data["seq"]), data["kind"], data["arg"]
+  _guards()
   msgs = build(side, seq)
   trace = []
   v, profile, nreads, st = run_case(side, msgs, kind, tuple(arg) if kind == "cuts" else arg, cfg.pox_src, trace=trace)
